@@ -175,6 +175,20 @@ PROPS["C19"] = {
 }
 
 
+PROPS["C20"] = {
+    "engine_name": "vt",
+    "builds": [("vt", ())],
+    "workloads": [{"bin": "vt", "engine": "vt", "profile": "c20", "cases": {"quick": 640, "thorough": 12000},
+                   "timeout_s": {"quick": 600, "thorough": 3000}, "sample_keys": ["vt"]}],
+    "rule": "one real run per process through Cucumber::custom(..).init_tracing().run() (global subscriber) polled by the gate scheduler; every before hook / step / after hook emits 0-4 `tracing::info!` lines with unique ids before and after its gates; 1-10 scenarios, limits 2/3/64/unlimited, retries; the raw event stream is checked for: each id delivered exactly once, as a Log of the emitting scenario attempt, after the Started and before the result event of the emitting step / hook, none missing at run-Finished; non-trivial = >=2 scenarios in flight both logging; distinct by schedule hash",
+    "floor": {"quick": 100, "thorough": 1000},
+    "assumptions": ["with the `tracing` feature the runner busy-yields while scenarios run, so a quiescent point is 4 consecutive self-woken polls without any event, callback step or parser pull",
+                    "both hooks are always set in this workload (the Cucumber facade type is fixed); World::new emits no logs",
+                    "Miri cannot run this workload (dependency UB report in crossbeam AtomicCell<Box<_>>, see DESIGN.md)"],
+    "technique": "runtime monitoring: trace oracle over the recorded raw event stream of real runs with the tracing integration enabled",
+}
+
+
 def _c14_post(merged_all, tier, seed, work):
     import os
     import c14
@@ -201,6 +215,8 @@ PROPS["C14"] = {
 NOT_APPLICABLE = {}
 
 ENGINES = [
+    {"name": "vt", "path": "harness/vt", "serves_properties": ["C20"],
+     "kind_free_text": "one-run-per-process binary: Cucumber facade with init_tracing() driven by the gate scheduler; log ids joined with the callback log"},
     {"name": "zoo", "path": "harness/zoo", "serves_properties": ["C19"],
      "kind_free_text": "binary with annotated step functions compiled by /repo/codegen + hand-written matcher/argument table + text corpus"},
     {"name": "vpure", "path": "harness/vh (src/pure.rs)", "serves_properties": ["C15", "C16", "C17", "C18"],
